@@ -10,13 +10,15 @@ COMMON_TRUST = [
 PROPS = {}
 
 PROPS["C14"] = dict(
-    units=[("verus", "bytecode"), ("kani", "codec"), ("verus", "emitter"), ("verus", "vmcore")],
+    units=[("verus", "bytecode"), ("kani", "codec"), ("verus", "emitter"), ("verus", "vmcore"), ("verus", "cgen")],
     explanation="make/read_operands/DEFINITIONS/Opcode::from verified mutually inverse for every opcode and every "
                 "operand value that fits its width (lemma_roundtrip), and an operand that does not fit is never "
                 "recovered (lemma_unfit_not_recovered), so silent truncation is a decode mismatch. emit/change_operand/patch_jump record "
                 "a compile error for every operand that does not fit its width (operands_fit == the spec predicate), and compile() "
-                "returns Err whenever one was recorded.",
-    not_covered=["that each compile_* call site passes the operand count of its opcode to emit",
+                "returns Err whenever one was recorded. Code generator (cgen unit, real bodies): every emit call in compile_statement / compile_expression / compile_if_expression / compile_logical_and / compile_logical_or / "
+                "compile_function_literal / load_symbol / save_symbol / compile_index / compile_prop / compile_infix passes at least as many operands as its opcode encodes (emit's precondition, discharged at each call site), "
+                "patch_jump / change_operand are only applied to the start of a one-operand instruction, and the bytes they leave are the big-endian encoding of the new operand (lemma_patched_jump).",
+    not_covered=["compile_match_expression / compile_filter_statement call sites of emit (behind one assumed contract in the cgen unit; the programmatic frame scan of the emitter unit counts their operands)",
                  "VM::run's fetch/dispatch loop header and tail (each of its 48 arms is verified: it decodes big-endian operands of exactly the encoder's widths and leaves ip on the last operand byte)"],
     assumptions=["lazy_static evaluates the DEFINITIONS initializer exactly once and DEFINITIONS.get is HashMap::get on it (R6)",
                  "byteorder::WriteBytesExt::write_u16::<BigEndian>/write_u8 append the big-endian bytes (shim contracts)",
@@ -25,7 +27,7 @@ PROPS["C14"] = dict(
 )
 
 PROPS["C01"] = dict(
-    units=[("verus", "scanner"), ("kani", "prec"), ("verus", "driver"), ("verus", "parser"), ("verus", "exprparse")],
+    units=[("verus", "scanner"), ("kani", "prec"), ("verus", "driver"), ("verus", "parser"), ("verus", "exprparse"), ("verus", "cgen")],
     explanation="Every Scanner method is verified panic-free (all indexing and slicing in bounds, no overflow), terminating "
                 "(decreases on the remaining input) and progressing (next_token strictly advances and returns Eof at end of input) "
                 "for every input text; the Pratt loop's termination invariant (a token that can continue an expression has an infix parser) "
@@ -35,11 +37,16 @@ PROPS["C01"] = dict(
                 "new diagnostic - so the compiler's panic on Statement::Invalid is unreachable for executed programs. Expression parser (exprparse unit, round 2): all 40 functions of parser/rules.rs "
                 "(literals, prefix/infix/assignment/range/dot/index/call/grouped/if/match/function/array/map/dollar parsers, parse_block_statement, parse_function_params, convert_to_pattern_list) and parse_expression's Pratt loop are verified on their real bodies: "
                 "no index, slice or unwrap can fail (the radix slices under the scanner's token invariant; `arms[arms.len() - 1]` only when a default arm was seen), diagnostics only grow, and every loop terminates under the measure "
-                "3 x input left + 2 x [look-ahead not Eof] + [current not Eof] (Eof is not assumed absorbing: a NUL in the text yields Eof in mid-input).",
+                "3 x input left + 2 x [look-ahead not Eof] + [current not Eof] (Eof is not assumed absorbing: a NUL in the text yields Eof in mid-input). "
+                "Code generator (cgen unit, round 3): compile_statement (all arms incl. loop / while / break / continue), compile_expression (all arms), compile_if_expression, compile_logical_and / or, compile_function_literal, compile_block_statement, "
+                "compile_identifier / index / dot / prop / infix, load / save_symbol, enter / leave_scope and the stream helpers (emit, change_operand, patch_jump, remove_last_pop, replace_last_pop_with_return, replace_instruction) are verified on their real bodies against a "
+                "representation invariant (the scope's bytes are a sequence of well-formed instructions, last_ins is the last of them, every recorded break placeholder is the start of a Jump): no index, slice, truncation, patch, subtraction or unwrap in them can fail for any AST, "
+                "each only appends to the stream and restores block depth, loop stack and symbol-table nesting.",
     not_covered=["termination of the recursive descent as a whole: the recursive entries parse_expression / parse_statement are seen by their callers through one assumed contract (diagnostics grow, the measure does not increase), so each function's own loops terminate but the recursion depth (bounded by the tokens consumed) is stated, not proved",
                  "that each function value stored in PARSE_RULES is one of the verified prefix / infix parsers (the indirect calls go through dispatch shims carrying their common contract)",
-                 "compile_* (no panics on well-formed ASTs: the bounded stand-in only)"],
-    assumptions=["Unicode classification (is_alphabetic/is_alphanumeric) is uninterpreted except: NUL is in no class, alphabetic implies alphanumeric",
+                 "compile_match_expression and compile_filter_statement / emit_action_stmt (behind the code generator's common contract, assumed; exercised by the bounded stand-in); termination of the compile_* recursion (structural on the AST: stated, not proved)"],
+    assumptions=["cgen: the two AST shapes the parser never produces for an error-free program reach the compiler's two panic! sites (Statement::Invalid; a Builtin identifier other than stdin/stdout/stderr); block depth stays below usize::MAX; a map literal has fewer than usize::MAX/2 pairs; symbol-table operations keep the nesting of tables (symtab unit's contracts, restated)",
+                 "Unicode classification (is_alphabetic/is_alphanumeric) is uninterpreted except: NUL is in no class, alphabetic implies alphanumeric",
                  "fewer than 2^64 - 2 characters/tokens are scanned (read_position does not overflow)",
                  "string building shims (collect, to_string, format!) return some String",
                  "table facts used by the Pratt loop's termination (prec unit, Kani, every token): a token whose level is above Lowest has an infix parser; right-associative tokens are above Lowest"],
@@ -61,14 +68,18 @@ PROPS["C03"] = dict(
 )
 
 PROPS["C06"] = dict(
-    units=[("kani", "ops"), ("verus", "vmcore")],
+    units=[("kani", "ops"), ("verus", "vmcore"), ("verus", "cgen")],
     explanation="Object::is_falsey equals the documented table for every Bool, Integer, Float (incl. -0.0, NaN), Char, Byte value and Null (Kani, real code). "
                 "The VM arms Bang, JumpIfFalse and JumpIfFalseNoPop are verified to use exactly that predicate: Bang replaces v by Bool(falsey(v)); "
                 "JumpIfFalse pops and jumps to the encoded target iff falsey; JumpIfFalseNoPop does the same without popping (so a && b / a || b yield an operand, not a boolean). "
                 "Object::is_falsey itself is verified (Verus, real body) against the whole documented table, the empty string / array / map rows for containers of every size; "
-                "pop_filter_frame's verdict is !falsey(value), so filter patterns follow the same table.",
-    not_covered=["compile_logical_and/or and compile_if/while jump emission (which instruction sequence the compiler produces for && || if while): the bounded stand-in only"],
-    assumptions=[],
+                "pop_filter_frame's verdict is !falsey(value), so filter patterns follow the same table. "
+                "Compiler (cgen unit, real bodies): a && b is compiled as <a> JumpIfFalseNoPop end, Pop, <b>, end: and a || b as <a> JumpIfFalseNoPop rhs, Jump end, rhs: Pop, <b>, end: - on the operator's own operands in source order, "
+                "with the jump operands equal to those positions unless a compile error is recorded (and_shape / or_shape, proved through patch_jump's byte-level contract); compile_expression dispatches && and || to exactly these generators; "
+                "if is <c> JumpIfFalse else ... Jump end (if_shape); while is <c> JumpIfFalse end ... Jump begin and loop ends in Jump begin, and patching break placeholders leaves those jumps alone; !v emits Bang after v's code.",
+    not_covered=["the composition 'these instruction sequences executed by those VM arms yield the documented value' is by reading the two contracts side by side (no VM-execution semantics of whole programs is formalised)",
+                 "a while condition that itself contains a break to that loop (its bytes are patched later, so the condition's segment is not tagged in while_loop_shape)"],
+    assumptions=["emitted_by(e, segment) is an uninterpreted tag whose only axiom is its definition at compile_expression's accepting exit ('this call appended this segment')"],
     trusted=COMMON_TRUST,
 )
 
@@ -109,10 +120,12 @@ PROPS["C10"] = dict(
 )
 
 PROPS["C13"] = dict(
-    units=[("verus", "vmcore"), ("verus", "bytecode"), ("verus", "emitter"), ("verus", "propwire"), ("verus", "vmindex"), ("verus", "dollar")],
+    units=[("verus", "vmcore"), ("verus", "bytecode"), ("verus", "emitter"), ("verus", "propwire"), ("verus", "vmindex"), ("verus", "dollar"), ("verus", "cgen")],
     explanation="emit/add_instruction/replace_instruction/change_operand/patch_jump/remove_last_pop keep lines.len() == code.len() and never change the line of a surviving byte; make() records the given line for every byte of an instruction; every RTError built by the verified VM helpers "
-                "(push/pop/top, call_func, call_builtin, push_closure, binary_op, bitwise_op, exec_call, push_frame) carries the line argument.",
-    not_covered=["that the compiler passes the right token's line to emit", "errors raised inside the 12 layer-getter arms of exec_prop_* (they return error OBJECTS, never runtime errors: pktcache) and inside builtins (call_builtin puts the line on them)",
+                "(push/pop/top, call_func, call_builtin, push_closure, binary_op, bitwise_op, exec_call, push_frame) carries the line argument. "
+                "Compiler (cgen unit, real bodies): for a binary operator other than && / ||, a unary operator, an index, a call and a packet-property access, the last instruction compile_expression emits - the one that can fail at run time - "
+                "is the node's own opcode (infix_opcode / unary_opcode tables, Get/SetIndex, Call, Get/SetProp) and the line recorded at its opcode byte is the line of the node's own token (op_line / last_line_is).",
+    not_covered=["lines the compiler gives to match-pattern comparisons and filter statements (compile_match_expression / compile_filter_statement are behind an assumed contract)", "errors raised inside the 12 layer-getter arms of exec_prop_* (they return error OBJECTS, never runtime errors: pktcache) and inside builtins (call_builtin puts the line on them)",
                  "that `line` passed to the arms is instructions.lines[ip] (one line of VM::run's loop header)"],
     assumptions=[],
     trusted=COMMON_TRUST,
